@@ -1,0 +1,21 @@
+//go:build verif
+
+package verifhook
+
+import "sync/atomic"
+
+type handler func(point string, arg interface{})
+
+var current atomic.Value // of handler
+
+// SetHandler installs h (nil removes the handler).
+func SetHandler(h func(point string, arg interface{})) {
+	current.Store(handler(h))
+}
+
+// Yield reports that execution reached the named point.
+func Yield(point string, arg interface{}) {
+	if h, _ := current.Load().(handler); h != nil {
+		h(point, arg)
+	}
+}
